@@ -220,6 +220,10 @@ pub struct C07Case {
     pub queries: Vec<(u16, u8, u16, u16, u8, bool, bool)>,
 }
 
+fn hex_of(b: &[u8]) -> String {
+    b.iter().map(|x| format!("{x:02x}")).collect()
+}
+
 pub fn oracle_c07(case: &C07Case, st: &mut Stats) -> Verdict {
     let (cat, model) = build(&case.catalog);
     let server = make_server(&cat, &ServerCfg { payload: 4096, keys: vec![], rrl: None });
@@ -277,8 +281,29 @@ pub fn oracle_c07(case: &C07Case, st: &mut Stats) -> Verdict {
         };
         let opcode = *opcode % 16;
         let flags = (opcode as u16) << 11;
-        let q = build_query(*sel, flags, &qname, *qtype, qclass, *edns);
-        let what = format!("opcode {opcode} query {qname} type {qtype} class {qclass} over {}", if *tcp { "TCP" } else { "UDP" });
+        // requests with another opcode come in more shapes than "one question": a bare header (STATUS), no
+        // question but an answer record (IQUERY, RFC 1035 §6.4), question plus records (NOTIFY / UPDATE)
+        let shape = if opcode != 0 { (*how / 5) % 4 } else { 0 };
+        let q = if shape == 0 {
+            build_query(*sel, flags, &qname, *qtype, qclass, *edns)
+        } else {
+            let mut b = vmodel::wire::Builder::new(*sel, flags);
+            if shape == 3 {
+                b.question(&qname, *qtype, qclass);
+            }
+            if shape >= 2 {
+                b.rr(1, &MName::root(), mr::T_A, mr::C_IN, 0, &[127, 0, 0, 1]);
+            }
+            if shape == 3 {
+                b.rr(2, &qname, mr::T_TXT, mr::C_IN, 60, &[1, b'x']);
+            }
+            if *edns {
+                b.rr(3, &MName::root(), mr::T_OPT, 1232, 0, &[]);
+            }
+            st.class(["", "other-opcode: bare header", "other-opcode: no question, one answer record", "other-opcode: question and records"][shape as usize]);
+            b.buf
+        };
+        let what = format!("opcode {opcode} query {qname} type {qtype} class {qclass} (request shape {shape}: {}) over {}", hex_of(&q), if *tcp { "TCP" } else { "UDP" });
         let resp = match run_query(&server, &q, *tcp, &mut buf, &what)? {
             Some(r) => r,
             None => fail!("no-response", "{what}: no response"),
